@@ -891,3 +891,7 @@ def replay(run, data) -> None:
         raise Inconclusive(f'unknown engine in replay file: {engine}')
     run.case('pad', True)
     run.case('pad2', True)
+
+
+# (kept at the end of the file so that the text above stays the description the check was first built to)
+RULE += ' ' + 'Later additions: refused copy_from() (wrong length, other size) and a frame copied onto itself on lazily loaded frames; a few large textures (256x1 .. 1x4096, 128x128, 256x64: eight and more mipmap levels).'
